@@ -4,25 +4,31 @@
 #define NV_DUMP_MORE_H
 void dump_more_cond();
 void dump_more_memory();
+void dump_more_msp430asm();
 void dump_more_msp430dis();
 void dump_more_riscv();
 void dump_more_simtables();
 void dump_more_symbols();
+void dump_more_safe();
 void dump_more_det();
 void dump_more_util();
 void dump_more_macro();
 void dump_more_link();
+void dump_more_reader();
 static void dump_more()
 {
   dump_more_cond();
   dump_more_memory();
+  dump_more_msp430asm();
   dump_more_msp430dis();
   dump_more_riscv();
   dump_more_simtables();
   dump_more_symbols();
+  dump_more_safe();
   dump_more_det();
   dump_more_util();
   dump_more_macro();
   dump_more_link();
+  dump_more_reader();
 }
 #endif
